@@ -242,7 +242,7 @@ def gen_program(rng, size=3):
         if rest:
             cc.vars[LST].append("rs")
             c.features.add("rest-args")
-        kind = rng.choice(["plain", "plain", "rec", "tailrec", "internal", "closure"])
+        kind = rng.choice(["plain", "plain", "rec", "tailrec", "internal", "internal-seq", "closure"])
         if kind == "rec" and ar >= 1:
             c.features.add("recursion")
             n = ps[0]
@@ -265,6 +265,21 @@ def gen_program(rng, size=3):
             cc.counter = ch.counter
             cc.fns.append((h, 1, False))
             body = "(define (%s %s) %s) %s" % (h, hp, hb, gen_int(cc, size - 1))
+        elif kind == "internal-seq":
+            # internal definitions are evaluated in the order written (letrec*): an internal procedure that assigns a
+            # literal-initialised internal variable, statements that run it, later definitions that READ the variable
+            # (every later right-hand side mentions an internal name, which keeps the program outside the class of the
+            # open finding K01e: right-hand sides without internal names are hoisted in front of the statements)
+            c.features.add("internal-define-sequence")
+            h, v, z, w = c.fresh("h"), c.fresh("cnt"), c.fresh("z"), c.fresh("w")
+            hp = c.fresh("q")
+            init = rng.randint(-3, 9)
+            k1, k2 = rng.randint(1, 5), rng.randint(1, 5)
+            stmt = rng.choice(["(%s %d)" % (h, k1), "(set! %s (+ %s %d))" % (v, v, k1),
+                               "(for-each %s (list %d %d))" % (h, k1, k2), "(when (< %s 100) (%s %d))" % (v, h, k2)])
+            stmt2 = rng.choice(["", " (%s %d)" % (h, k2), " (set! %s (* %s 2))" % (v, v)])
+            body = ("(define (%s %s) (set! %s (+ %s %s))) (define %s %d) %s (define %s (+ %s %s))%s (define %s (list %s %s)) "
+                    "(+ (car %s) (car (cdr %s)) %s)") % (h, hp, v, v, hp, v, init, stmt, z, v, gen_int(cc, 1), stmt2, w, z, v, w, w, v)
         elif kind == "closure":
             c.features.add("closure-mutation")
             cnt = c.fresh("cnt")
